@@ -431,7 +431,7 @@ def _fork_call(fn, *args):
 class PlainWorker:
     def __init__(self, modname, mutations=None, log=None):
         env = dict(os.environ)
-        env["PYTHONPATH"] = VERIF + os.pathsep + env.get("PYTHONPATH", "")
+        env["PYTHONPATH"] = (os.environ["VERIF_REPO_SRC"] + os.pathsep if os.environ.get("VERIF_REPO_SRC") else "") + VERIF + os.pathsep + env.get("PYTHONPATH", "")
         env["PYTHONDONTWRITEBYTECODE"] = "1"
         env["NUMBA_CACHE_DIR"] = os.path.join(VERIF, ".numba_cache")  # keep numba's cache=True out of /repo
         env["NUMBA_THREADING_LAYER"] = "workqueue"  # OpenMP aborts in the per-request forked children
